@@ -416,6 +416,26 @@ func (p *prep) evalChannel(cut int) (f *vh.Failure) {
 			before = append(before, x)
 		}
 	}
+	// every environment change member has to be reported exactly once, however often
+	// the package had to be parsed
+	envCalls := 0
+	if err := ch.RegisterEnvChangeHooks(func(tds.EnvChangeType, string, string) { envCalls++ }); err != nil {
+		vh.HarnessBug("RegisterEnvChangeHooks: %v", err)
+	}
+	wantEnv := 0
+	for _, x := range p.pkgs {
+		if x.Env != nil {
+			wantEnv += len(x.Env.Members)
+		}
+	}
+	if cut%2 == 1 {
+		// history: the channel has already completed an earlier response (the truncated
+		// attempt must behave the same on a used channel as on a fresh one)
+		ch.WritePacket(packet([]byte{rc.TokDone, byte(rc.DoneCount), 0, 0, 0, 5, 0, 0, 0}, tds.TDS_BUFSTAT_EOM))
+		if got, err := drain(ctx, ch); err != nil || len(got) != 2 {
+			return vh.Failf(class(p.kind, "channel-delivery"), "%s, channel: the preceding complete response [DONE(COUNT)] delivered %d packages, err %v", p.describe(cut), len(got), err)
+		}
+	}
 	ch.WritePacket(packet(p.stream[:p.start+cut], 0))
 	if f := noError("after the prefix packet"); f != nil {
 		return f
@@ -449,6 +469,9 @@ func (p *prep) evalChannel(cut int) (f *vh.Failure) {
 	synthetic := !(lastDelivered.Done != nil && lastDelivered.Done.Status == rc.DoneFinal)
 	if f := expect("after the remainder packet", got, after, synthetic); f != nil {
 		return f
+	}
+	if envCalls != wantEnv {
+		return vh.Failf(class(p.kind, "reparse-differs"), "%s, channel: the environment change hook was called %d times for %d members", p.describe(cut), envCalls, wantEnv)
 	}
 	return noError("after reading the packages")
 }
